@@ -970,8 +970,7 @@ def to_poly(e: expr.Expr, conds: Conditions) -> Polynomial:
         if e.lower == e.upper:
             return constant(to_const_poly(expr.Const(0)), conds)
         conds2 = Conditions(conds)
-        conds2.add_condition(expr.Op(">", expr.Var(e.var), e.lower))
-        conds2.add_condition(expr.Op("<", expr.Var(e.var), e.upper))
+        conds2.add_interval_condition(e.var, e.lower, e.upper)
         body = normalize(e.body, conds2)
         l, h = normalize(e.lower, conds), normalize(e.upper, conds)
         if l.is_evaluable() and h.is_evaluable() :
